@@ -131,7 +131,13 @@ Print Assumptions C20_typed.
 
 (* ---- make_dict_hash / PDFSet --------------------------------------- *)
 (* (no side condition: the statements hold for every pair of item lists that are
-   permutations of each other; Python dictionaries additionally have unique keys) *)
+   permutations of each other; Python dictionaries additionally have unique keys)
+   NOTE: these theorems hold BY CONSTRUCTION of the model: make_dict_hash is modelled
+   as H (canon_items d) for an arbitrary function H of the sorted item list, which
+   is what "a function of frozenset(d.items())" means.  That the code really hashes
+   the frozenset of the items is NOT proved here; it is tied by the statement-
+   skeleton pin of make_dict_hash (kernels sh_make_dict_hash, mdh) and by the
+   harness (all orderings of 1..4-entry dictionaries, sampled 5..7-entry ones). *)
 Theorem C20_hash : forall (H : list item -> Z) (d d' : od Z),
   Permutation d d' ->
   make_dict_hash H (DDict d) = make_dict_hash H (DDict d').
@@ -230,6 +236,17 @@ Theorem C20_joint_names : forall fields a,
                         fields)).
 Proof. exact joint_names_exact. Qed.
 Print Assumptions C20_joint_names.
+
+(* the four stage constants of DataFieldStages (regenerated from the class body)
+   are distinct single bits: a constant passes both checks against itself and
+   neither check against any other constant *)
+Theorem C20_stage_constants : forall a b,
+  In a [dfs_dataprep_exp; dfs_dataprep_mc; dfs_analysis_exp; dfs_analysis_mc] ->
+  In b [dfs_dataprep_exp; dfs_dataprep_mc; dfs_analysis_exp; dfs_analysis_mc] ->
+  (a = b -> or_check a (SInt b) = Ok true /\ and_check a (SInt b) = Ok true)
+  /\ (a <> b -> or_check a (SInt b) = Ok false /\ and_check a (SInt b) = Ok false).
+Proof. exact stage_constants_disjoint. Qed.
+Print Assumptions C20_stage_constants.
 
 (* the 16 x 16 table over the four stage bits, swept by computation *)
 Theorem C20_stage_table : table_ok 16 4 = true.
@@ -416,3 +433,29 @@ Proof.
   cbv zeta. split; [vm_compute; reflexivity|]. split; [|vm_compute; reflexivity].
   intros o [<-|[<-|[<-|[]]]]; vm_compute; try tauto. discriminate.
 Qed.
+
+(* DECLARED EXCEPTION (open finding C20-config-shallow-copy): copy.copy(cfg) /
+   cfg.copy() is Python's shallow copy; the result (a Config instance in the case
+   of copy.copy) shares every nested dictionary with the original, so an edit of
+   the copy IS visible in the original.  The isolation theorems above speak about
+   the constructors Config() / from_dict / from_yaml only (C20_config_* are the
+   `_partial` side: all steps except a shallow copy). *)
+Example C20_config_shallow_copy_refuted :
+  let w := wrun 20 w0 [WUserNew; WUserNew; WUserSet 1 [] 22 0; WUserLink 0 [] 2 1; WNew] in
+  exists root, nth_error (winsts w) 0 = Some root
+  /\ let (st1, c2) := cfg_shallow (wst w) root in
+     let (st2, r) := cfg_apply st1 c2 MEnable in
+     r = Ok tt /\ tree_of 20 st1 (VRef root) = Ok (TNode [(2, TNode [(22, TAtom 0)])])
+     /\ tree_of 20 st2 (VRef root) = Ok (TNode [(2, TNode [(22, TAtom 1)])]).
+Proof. cbv zeta. eexists. split; [vm_compute; reflexivity|]. vm_compute. repeat split. Qed.
+
+(* item deletion (del cfg[..][k] / cfg[..].pop(k)) is one of the mutators covered by
+   C20_config_isolation; a concrete run: deleting in one instance, the other keeps the item *)
+Example C20_config_delitem_nonvacuous :
+  let ops := [WUserNew; WUserNew; WUserSet 1 [] 22 0; WUserSet 1 [] 21 5; WUserLink 0 [] 2 1;
+              WNew; WNew; WMut 0 (MDelItem [2] 22); WMut 0 (MDelItem [2] 99)] in
+  let w := wrun 20 w0 ops in
+  map (fun r => tree_of 20 (wst w) (VRef r)) (winsts w)
+  = [Ok (TNode [(2, TNode [(21, TAtom 5)])]); Ok (TNode [(2, TNode [(22, TAtom 0); (21, TAtom 5)])])]
+  /\ snd (wstep 20 (wrun 20 w0 (firstn 8 ops)) (WMut 0 (MDelItem [2] 99))) = Err KeyError.
+Proof. cbv zeta. split; vm_compute; reflexivity. Qed.
